@@ -55,6 +55,9 @@ def plan(tier, seed):
     # messages / associated data of more than 65536 blocks (block-index arithmetic beyond 16 bits: OCB ntz(i), counters)
     for modes_ in ((("ocb",), ("gcm", "chacha")) if q else (("ocb",), ("gcm",), ("chacha", "eax"), ("ocb",), ("siv", "ccm"))):
         specs.append({"kind": "huge", "modes": list(modes_), "budget_s": 30 if q else 300, "timeout_s": 900 if q else 2400})
+    # forgeries at volume: a comparison that looks at few bits of the tag accepts a forgery once in 2^bits attempts
+    for modes_ in (("gcm", "eax"), ("ccm", "ocb"), ("siv", "chacha")):
+        specs.append({"kind": "volume", "modes": list(modes_), "attempts": 1000000 if q else 8000000, "timeout_s": 900 if q else 2400})
     return specs
 
 
@@ -76,6 +79,8 @@ def finalize(agg, tier):
         out.append("reference model self-test never ran")
     if tier == "thorough" and not c.get("bulk_cases"):
         out.append("no bulk (composition) case ran in the thorough tier")
+    if "volume" in ran and not c.get("volume_forgeries"):
+        out.append("no forgery volume was shown to verify()")
     if "huge" in ran and not (c.get("huge_cases:ocb") and c.get("huge_swap_rejected")):
         out.append("no >65536-block OCB case / block-swap forgery was judged")
     return out
@@ -764,7 +769,81 @@ def run(spec, ctx):
         return c01_kw.run_kw(dict(spec, mode=spec["kind"]), ctx)
     if spec["kind"] == "huge":
         return run_huge(spec, ctx)
+    if spec["kind"] == "volume":
+        return run_volume(spec, ctx)
     run_aead(spec, ctx)
+
+
+def run_volume(spec, ctx):
+    """Many wrong tags for ONE received message per mode: random tags, tags at Hamming distance 1-3 from the true tag, the
+    true tag with one byte replaced.  verify() -> verify() is a documented self-loop, so one completed object takes them
+    all; the object is renewed every 50000 attempts and the authentic tag must still be accepted at the end.  With an
+    exact comparison none is accepted; a comparison through b bits accepts one in 2^b."""
+    import importlib
+    rng = ctx.rng
+    for mode in spec["modes"]:
+        cfg = {"mode": mode, "cipher": "AES" if mode != "chacha" else "ChaCha20", "klen": 32 if mode in ("siv", "chacha") else 16,
+               "mac_len": 16, "pass_mac_len": False, "decl_msg": False, "decl_assoc": False, "bs": 16, "light": True}
+        lib = Lib(cfg)
+        key, nonce = rb(rng, cfg["klen"]), rb(rng, 11 if mode == "ccm" else 12)
+        aad, pt = rb(rng, 13), rb(rng, 40)
+        e = lib.new(key, nonce, len(aad), len(pt))
+        e.update(aad)
+        ct, tag = e.encrypt_and_digest(pt)
+        n = spec["attempts"]
+        accepted = []
+        done = 0
+        while done < n:
+            d = lib.new(key, nonce, len(aad), len(ct))
+            d.update(aad)
+            try:
+                if mode == "siv":
+                    d.decrypt_and_verify(ct, tag)
+                else:
+                    d.decrypt(ct)
+                    if mode == "ocb":
+                        d.decrypt()
+                    d.verify(tag)
+            except ValueError:
+                ctx.check(False, "accept:%s:authentic-rejected:volume" % mode, "the authentic tuple was rejected", {"mode": mode})
+                break
+            for i in range(min(50000, n - done)):
+                r = i & 3
+                if r == 0:
+                    t = rng.randbytes(16)
+                elif r == 1:
+                    t = bytearray(tag)
+                    for _ in range(1 + (i >> 2) % 3):
+                        t[rng.randrange(16)] ^= 1 << rng.randrange(8)
+                    t = bytes(t)
+                elif r == 2:
+                    t = bytearray(tag)
+                    t[rng.randrange(16)] = rng.randrange(256)
+                    t = bytes(t)
+                else:
+                    t = tag[:rng.randrange(16)] + rng.randbytes(16)
+                    t = t[:16]
+                if t == tag:
+                    continue
+                try:
+                    d.verify(t)
+                    accepted.append(t)
+                except ValueError:
+                    pass
+            done += min(50000, n - done)
+            try:
+                d.verify(tag)
+            except ValueError:
+                ctx.check(False, "accept:%s:authentic-rejected:volume" % mode,
+                          "the authentic tag was rejected by an object that had refused forgeries before", {"mode": mode, "forgeries_shown": done})
+        ctx.ev(done)
+        ctx.count("volume_forgeries:" + mode, done)
+        ctx.count("volume_forgeries", done)
+        ctx.case((mode, "volume"))
+        ctx.check(not accepted, "accept:%s:forged-accepted:volume" % mode,
+                  "a tag that is not the tag the specification defines was accepted (one of many wrong tags shown to verify())",
+                  lambda: {"mode": mode, "key": key.hex(), "nonce": nonce.hex(), "aad": aad.hex(), "ct": ct.hex(), "true_tag": tag.hex(),
+                           "accepted_tags": [t.hex() for t in accepted[:5]], "accepted": len(accepted), "wrong_tags_shown": done})
 
 
 def run_huge(spec, ctx):
